@@ -10,7 +10,7 @@ import math
 TITLE = 'Scalings are order-preserving, invertible and NaN-blind'
 EXPLORER = 'E1'
 CLAUSES = ['C19.monotone', 'C19.roundtrip', 'C19.minmax_unit', 'C19.min_range', 'C19.step_continuous',
-           'C19.nan_blind', 'C19.all_nan', 'C19.reference', 'C19.data_rescaled']
+           'C19.nan_blind', 'C19.all_nan', 'C19.reference', 'C19.data_rescaled', 'C19.series_index']
 RULE = ('one case per scaling configuration (shift-and-scale: scale x shift; minmax-scale: min_range; '
         'step-scale: every strictly increasing step list of length 0..4 over {1000,8000,14000,20000} x '
         'every scale tuple over {1,100,500}); inside it every array of length 1..L over the value '
@@ -51,6 +51,10 @@ def cases(tier):
             for scales in itertools.product(SCALE_POOL, repeat=k + 1):
                 out.append({'mode': 'step-scale', 'kwargs': {'steps': list(steps), 'scales': list(scales)}, 'L': L - 1})
     out.append({'mode': 'data_rescaled', 'kwargs': {}, 'L': L})
+    # values whose spread is tiny relative to their magnitude, with a min_range below / at / above that spread
+    for mr in (0.0, 0.01, 0.05, 1.0):
+        out.append({'mode': 'minmax-scale', 'kwargs': {'min_range': mr}, 'L': L, 'alphabet': 'close'})
+    out.append({'mode': 'series', 'kwargs': {}, 'L': L})
     return out
 
 
@@ -83,7 +87,9 @@ def run_case(case):
     mode, kwargs, L = case['mode'], case['kwargs'], case['L']
     if mode == 'data_rescaled':
         return data_rescaled_case(case)
-    A = alphabet()
+    if mode == 'series':
+        return series_case(case)
+    A = alphabet() if case.get('alphabet') != 'close' else [float('nan'), 9000.0, 9000.02, 9000.05, 9000.05000001, 0.5, 0.50000004]
     res = {'n': 0, 'clauses': {}, 'digests': set(), 'violations': []}
     cl = res['clauses']
 
@@ -255,4 +261,62 @@ def data_rescaled_case(case):
             res['digests'].add(f'{hm}|{dm}|{len(rows)}')
     res['digests'] = sorted(res['digests'])
     res['sample'] = {'case': 'data_rescaled', 'executions': res['n']}
+    return res
+
+
+def series_case(case):
+    """apply_scaling on pandas Series with non-default index labels (gaps, shuffled, strings) and through CeiloChunk.data_rescaled on a
+    chunk whose MSA crop removed rows: values must stay on their own rows (label alignment) and equal the ndarray result."""
+    import copy
+    import warnings
+    import numpy as np
+    import pandas as pd
+    from ampycloud import scaler
+    from ampycloud.data import CeiloChunk
+    from .. import scenes
+    res = {'n': 0, 'clauses': {'C19.series_index': 0, 'C19.data_rescaled': 0}, 'digests': set(), 'violations': []}
+    modes = [('shift-and-scale', {'scale': 100}), ('shift-and-scale', {'scale': 10, 'shift': 5}), ('minmax-scale', {'min_range': 1000}),
+             ('step-scale', {'steps': [8000, 14000], 'scales': [100, 500, 1000]}), ('step-scale', {'steps': [], 'scales': [7]})]
+    vals = [2500.0, float('nan'), 2600.0, 7000.0, 9500.0, float('nan'), 15000.0, 100.0]
+    indexes = {'default': list(range(8)), 'gaps': [0, 1, 3, 4, 7, 8, 9, 12], 'reversed': list(range(8))[::-1], 'strings': list('abcdefgh'),
+               'shuffled': [3, 0, 7, 1, 6, 2, 5, 4]}
+    for (m, kw) in modes:
+        ref = scaler.apply_scaling(np.array(vals), m, **copy.deepcopy(kw))
+        for iname, idx in indexes.items():
+            ser = pd.Series(vals, index=idx, name='height')
+            frame = pd.DataFrame({'height': ser})
+            res['n'] += 1
+            res['clauses']['C19.series_index'] += 1
+            try:
+                out = scaler.apply_scaling(ser, m, **copy.deepcopy(kw))
+                frame['scaled'] = out                      # what data_rescaled does: label-aligned assignment
+                got = frame['scaled'].to_numpy(dtype=float)
+                ok = np.array_equal(got, np.asarray(ref, dtype=float), equal_nan=True)
+                detail = None if ok else {'mode': m, 'kwargs': kw, 'index': iname, 'got': got.tolist(), 'expected': np.asarray(ref).tolist()}
+            except Exception as e:
+                detail = {'mode': m, 'kwargs': kw, 'index': iname, 'raised': repr(e)[:200]}
+            if detail is not None and len(res['violations']) < 10:
+                res['violations'].append({'clause': 'C19.series_index', 'site': 'scaler.' + m, 'detail': detail})
+            res['digests'].add(f'{m}|{iname}')
+    # through the chunk: an MSA crop drops second hits above the limit -> index gaps
+    rows = []
+    for i in range(6):
+        rows.append(['a', 0.0 - 15.0 * (5 - i), 2500.0 + 100 * i, 1])
+        if i % 2 == 0:
+            rows.append(['a', 0.0 - 15.0 * (5 - i), 16000.0, 2])
+    rows.append(['b', 0.0, None, 0])
+    with warnings.catch_warnings():
+        warnings.simplefilter('ignore')
+        chunk = CeiloChunk(scenes.frame(rows), prms={'MSA': 10000, 'MSA_HIT_BUFFER': 1500})
+    for (m, kw) in modes:
+        res['n'] += 1
+        res['clauses']['C19.data_rescaled'] += 1
+        out = chunk.data_rescaled(height_mode=m, height_kwargs=copy.deepcopy(kw))
+        exp = scaler.apply_scaling(chunk.data['height'].to_numpy(dtype=float), m, **copy.deepcopy(kw))
+        if not np.array_equal(out['height'].to_numpy(dtype=float), np.asarray(exp, dtype=float), equal_nan=True) or list(out.index) != list(chunk.data.index):
+            res['violations'].append({'clause': 'C19.data_rescaled', 'site': 'CeiloChunk.data_rescaled',
+                                      'detail': {'mode': m, 'index': list(map(int, chunk.data.index)), 'heights': chunk.data['height'].tolist(),
+                                                 'got': out['height'].tolist(), 'expected': np.asarray(exp).tolist()}})
+    res['digests'] = sorted(res['digests'])
+    res['sample'] = {'case': 'series', 'executions': res['n']}
     return res
